@@ -204,7 +204,7 @@ def ref_key(ctx: Ctx) -> RuleResult:
             if tgt is None or dotted(d.key.value) != tgt:
                 continue
             it = norm_src(d.generators[0].iter)
-            over_refs = it.endswith(".dependencies") or it.endswith(".args") or it.endswith(".kwargs.values()") or "uxn" in it.lower()
+            over_refs = it.endswith(".dependencies") or it.endswith(".args") or it.endswith(".kwargs.values()")
             makes_ref = any(isinstance(x, ast.Call) and (dotted(x.func) or "").split(".")[-1] == "UsageExecNode" for x in ast.walk(d.value)) \
                 or dotted(d.value) == tgt
             if over_refs and makes_ref:
